@@ -688,7 +688,11 @@ class Expression(Element, ABC):
         raise NotImplementedError
 
     def __lt__(self, other: Expression) -> bool:
-        return self._get_key() < other._get_key()
+        self_key, other_key = self._get_key(), other._get_key()
+        if self_key != other_key:
+            return cast(bool, self_key < other_key)
+        # the keys are not injective, so break ties deterministically instead of keeping the input order
+        return self.to_y0() < other.to_y0()
 
     def __truediv__(self, expression: Expression) -> Expression:
         """Divide this expression by another and create a fraction."""
